@@ -30,7 +30,8 @@ ROLES = ['p', 'q', 'x', 'n', 'o', 'a', 'b', 'c', 'c_old', 'u', 'v', 'w',
 
 def _defaults(kind):
     from oslo_policy import policy
-    out = [policy.RuleDefault('p', 'role:p', description='the p rule'),
+    out = [policy.RuleDefault('m', 'role:a or role:b and role:c'),
+           policy.RuleDefault('p', 'role:p', description='the p rule'),
            policy.DocumentedRuleDefault(
                'q', 'role:q or role:x', 'the q rule',
                [{'path': '/q', 'method': 'GET'}])]
@@ -67,6 +68,8 @@ def _forms(name, default_cs, new_names=()):
         ('dquoted', '"lit":%(k)s or role:u'),
         ('unicode', 'role:u or role:\u00e9\U0001f600'),
         ('empty', ''),
+        ('regrouped', '(role:a or role:b) and role:c'),
+        ('reordered', 'role:b and role:c or role:a'),
     ]
     for nn in new_names:
         forms.append(('alias:' + nn, 'rule:%s' % nn))
@@ -89,6 +92,10 @@ def _file_for(ctx, kind, tool, small=False):
         chosen[name] = label
         if val is not None:
             rules[name] = val
+    if kind == 'plain':
+        pick('m', 'role:a or role:b and role:c',
+             allow=['absent', 'default', 'regrouped'] if small else
+             ['absent', 'default', 'variant', 'regrouped', 'reordered'])
     if small:
         pick('p', 'role:p', allow=['absent', 'default', 'variant',
                                    'different', 'list', 'list-blank'])
